@@ -455,6 +455,15 @@ func (n *LNode) Step(e Event, raw *interfaces.ConsensusRawMessage, info ref.Info
 	// of its height (sent PREPARE for it, or proposed it) and has been delivered genuine COMMITs (valid share, committee
 	// members; its own included) of quorum weight for exactly (v, X) has committed - in whatever order proposal and
 	// COMMITs arrived. (Had it committed, the shadow would have moved on to the next height.)
+	// ---- C11: PREPAREs are counted whenever they arrive (before or after the proposal, while the node's view is not
+	// higher): a member holding a complete prepared certificate for the proposal it accepted in view v has sent COMMIT
+	if n.Dead == "" && height == sh.Height {
+		for v := range sh.Prepared {
+			if hash := sh.Accepted[v]; sh.OwnCommit[v] != hash {
+				bad("C11", "prepared-but-no-commit", "holds the proposal #%s it accepted in view %d and timely PREPAREs completing its prepared certificate, but has sent no COMMIT for it (trigger=%s)", short(hash), v, trigger)
+			}
+		}
+	}
 	if n.Dead == "" && !n.commitRefused && height == sh.Height {
 		for v, hash := range sh.Accepted {
 			ids := map[string]bool{}
